@@ -25,7 +25,7 @@ MANIFEST = dict(
 )
 
 ASSUMPTIONS = [
-    "file and directory names are over [A-Za-z0-9_.] plus a space, %, #, + and one caseless non-ASCII letter (written ~1..~5 in the model's names and decoded by the harness), none is '.' or '..'; str::to_uppercase on stems is modelled as ASCII upper-casing (no cased non-ASCII letters are generated); the map is keyed by file-system paths, so Url::from_file_path/to_file_path must be mutually inverse also on names a URI percent-encodes - checked by the correspondence, not assumed",
+    "file and directory names are over [A-Za-z0-9_.] plus a space, %, #, + and one caseless non-ASCII letter (written ~1..~5 in the model's names and decoded by the harness), none is '.' or '..'; str::to_uppercase on stems is modelled as ASCII upper-casing; four cased non-ASCII letter pairs with one-to-one case mappings (é ü ж ω) are generated through escapes whose ASCII letter case mirrors the letter's, letters with special case mappings (ß, final sigma, dotted I) are not; the map is keyed by file-system paths, so Url::from_file_path/to_file_path must be mutually inverse also on names a URI percent-encodes - checked by the correspondence, not assumed",
     "no symbolic links INSIDE the workspace (15% of the cases reach the whole workspace through a symbolic link: keys must still be the canonical paths); all directories are readable; the file system is case-sensitive and does not change during one index walk",
     "the *.god files under the workspace root have pairwise distinct stems ignoring case (two files with the same stem overwrite each other in class_uri_map, in read_dir order)",
     "requests (change/parse/save/close/get_document_info) are made for existing paths only: get_key_for_path panics on a missing file (finding D2, handled under property C01); the workspace root is absent, missing, or a directory (read_dir on a regular file panics while the map lock is held)",
@@ -99,9 +99,11 @@ def parse_case(case):
 # --------------------------------------------------------------------------------------------
 # ~1..~5: a space, %, #, a CJK letter, + (decoded by the harness; see eng_index.rs)
 STEM_WORDS = ["aFoo", "aBar", "Main", "x", "Qux_1", "aOcsCard", "zz", "Node", "tEST", "a.b", "lib.core", "K9", "_u", "wam",
-              "a~1b", "~2x", "w~3", "~4~4", "p~5q", "a~220b"]
+              "a~1b", "~2x", "w~3", "~4~4", "p~5q", "a~220b",
+              # ~a/~A .. ~d/~D: é/É ü/Ü ж/Ж ω/Ω, cased letters outside ASCII (the escape's letter case mirrors the letter's)
+              "a~anit", "~Av~anement", "Gr~b~Be", "~c~C~c", "~d~Dmega", "se~Cal"]
 OTHER_EXT = [".GOD", ".God", ".txt", "", ".god.bak", ".", "god", ".gold", ".go", ".god~"]
-DIR_WORDS = ["d", "Sub", "pkg", "WAM", "x.god", "deep", "e_1", "Bundle", "My~1Bundle", "B~4ndel", "c~3", "q~2"]
+DIR_WORDS = ["d", "Sub", "pkg", "WAM", "x.god", "deep", "e_1", "Bundle", "My~1Bundle", "B~4ndel", "c~3", "q~2", "B~bndel", "~Ctage"]
 
 
 class Gen:
